@@ -307,6 +307,11 @@ class OsTheory:
         M["os.remove"] = fs_remove
         M["os.unlink"] = fs_remove
         M["os.replace"] = fs_replace
+
+        def fs_rename(I, a, k):
+            I.ctx.use("T-os(POSIX): os.rename onto an existing file replaces it atomically, exactly like os.replace")
+            return fs_replace(I, a, k)
+        M["os.rename"] = fs_rename
         M["os.open"] = fs_open_fd
         M["os.write"] = fs_write
         M["os.fsync"] = fs_fsync
